@@ -168,16 +168,16 @@ class Analysis:
             if not nm.isidentifier() or keyword.iskeyword(nm):
                 self.w.append(W("C03", "invalid-class-name", f"class name {nm!r} is not a valid non-keyword identifier", name=nm))
             if nm in imported:
-                self.w.append(W("C03", "name-shadows-import", f"class {nm!r} shadows a name the module imports", name=nm, what="class"))
+                self.w.append(W("C03", shadow_mech(nm), f"class {nm!r} shadows a name the module imports", name=nm, what="class"))
             seen = set()
             for f in c["fields"]:
                 if not f.isidentifier() or keyword.iskeyword(f):
                     self.w.append(W("C03", "invalid-field-name", f"field name {f!r} in class {nm}", name=f))
                 if f in seen:
-                    self.w.append(W("C03", "duplicate-field-name", f"field {f!r} twice in class {nm}", name=f))
+                    self.w.append(W("C03", "duplicate-field-name:" + self.dup_field_kind(nm, f), f"field {f!r} twice in class {nm}", name=f))
                 seen.add(f)
                 if f in imported:
-                    self.w.append(W("C03", "name-shadows-import", f"field {f!r} of class {nm} shadows a name the module imports",
+                    self.w.append(W("C03", shadow_mech(f), f"field {f!r} of class {nm} shadows a name the module imports",
                                     name=f, what="field"))
         fields_of = {c["scope"] + (c["name"],): set(c["fields"]) for c in cen["classes"]}
         for scope, names in scopes.items():
@@ -187,7 +187,8 @@ class Analysis:
                                                                  f"{'.'.join(scope)}", names=sorted(clash)))
             dups = {n for n in names if names.count(n) > 1}
             if dups:
-                self.w.append(W("C03", "duplicate-class-name", f"classes {sorted(dups)} defined twice in scope {'.'.join(scope) or '<module>'}"))
+                self.w.append(W("C03", "duplicate-class-name:" + self.dup_class_kind(dups),
+                                f"classes {sorted(dups)} defined twice in scope {'.'.join(scope) or '<module>'}"))
         # every leaf of every evaluated annotation is a class or a typing special form
         n_ann = 0
         n_fwd = 0
@@ -204,6 +205,31 @@ class Analysis:
                                         f"annotation of {info.qualname}.{f.name} evaluates to non-type leaf {bad!r}"))
         st["annotations_evaluated"] = n_ann
         return cen
+
+    def dup_class_kind(self, dups):
+        """'sanitised' when the models' names before class-name conversion were all distinct (they only collide after
+        label sanitising - the known finding), 'raw' when the registry itself handed out one name twice"""
+        reg = self.run.registry
+        raw = getattr(self.run, "raw_names", {})
+        for d in dups:
+            ms = [ix for ix, m in reg.models_map.items() if m.name == d]
+            raws = [raw.get(ix) for ix in ms]
+            if len(set(raws)) != len(raws):
+                return "raw"
+        return "sanitised"
+
+    def dup_field_kind(self, cls_name, fname):
+        """'folded-keys' when >=2 distinct keys of the model map to this field name (known finding), else 'same-key'"""
+        reg = self.run.registry
+        kw = driver.generator_kwargs(self.opts)
+        for ix, m in reg.models_map.items():
+            if m.name != cls_name:
+                continue
+            g = driver.FW[self.opts["framework"]](m, **kw)
+            keys = [k for k in m.type if g.convert_field_name(k) == fname]
+            if len(keys) >= 2:
+                return "folded-keys"
+        return "same-key"
 
     # ------------------------------------------------------------------ C01 / C02
     def c01_c02(self, want_c02=True):
@@ -382,6 +408,17 @@ def explain_pydantic(e, sample, structural_ok):
     if causes:
         return "pydantic-quirk:" + ",".join(sorted(causes)), msg
     return "pydantic-parse-rejected:" + ",".join(kinds)[:60], msg
+
+
+import builtins as _builtins
+
+_DOCUMENTED_RESERVED = set(keyword.kwlist) | set(dir(_builtins)) | {"datetime", "time", "date", "defaultdict", "schema"}
+
+
+def shadow_mech(name):
+    """names that label preparation is documented to suffix (keywords, builtins, datetime/time/date/defaultdict/schema)
+    must never shadow an import; other imported names (List, Field, attr, ...) are the known finding"""
+    return "name-shadows-import:documented-reserved-name" if name in _DOCUMENTED_RESERVED else "name-shadows-import"
 
 
 def has_model(T, classes):
